@@ -2,11 +2,11 @@
     Statements about the model Lib/Cleanup.v (the four passes of cleanup.rs over the part of a MODULE they read or
     write).  Proved: the COMPU_METHOD / conversion table / UNIT / RECORD_LAYOUT pass in both directions (what is still
     referenced stays, what stays is referenced, REF_UNIT chains and cycles of any length), and for GROUPs that whatever
-    USER_RIGHTS names or still lists an object is never removed.  The remaining parts of the property (FUNCTION
-    worklist, idempotence of the whole run) are evaluated on the model and on the implementation, not proved:
-    C10 is a partial proof. *)
+    USER_RIGHTS names or still lists an object is never removed; running cleanup twice gives the same result as running it
+    once, for the whole model (C10_cleanup_twice_is_cleanup_once).  That the worklists of groups.rs / functions.rs compute
+    what the rounds of the model compute is tied by the correspondence run. *)
 From Coq Require Import String List NArith Bool Ascii.
-From A2L Require Import Text.Escape Lib.Merge Lib.Cleanup Proofs.CleanupProofs.
+From A2L Require Import Text.Escape Lib.Merge Lib.Cleanup Proofs.CleanupProofs Proofs.CleanupIdemProofs.
 Import ListNotations.
 
 (* measurement and calibration objects: the model of cleanup has no way to touch them (only their conversion and
@@ -114,3 +114,25 @@ Theorem C10_protected_functions_stay : forall used fs f, NoDup (map f_nm fs) -> 
              f_rc f' = f_rc f /\ f_dc f' = f_dc f /\ f_in f' = f_in f /\ f_loc f' = f_loc f /\ f_out f' = f_out f.
 Proof. exact protected_functions_stay. Qed.
 Print Assumptions C10_protected_functions_stay.
+
+
+(** running cleanup twice gives the same result as running it once: the four passes in the order of cleanup.rs, for every
+    module whose FUNCTION names are unique.  The GROUP and FUNCTION rounds reach a state in which nothing more can go within
+    the fuel of the model; a second run finds every list already reduced; the passes do not disturb each other. *)
+Theorem C10_cleanup_twice_is_cleanup_once : forall m, NoDup (map f_nm (m_funcs m)) -> cleanup (cleanup m) = cleanup m.
+Proof. exact cleanup_twice. Qed.
+Print Assumptions C10_cleanup_twice_is_cleanup_once.
+
+(* the premise is met and the first run does something: f1 is listed by the group g, f2 - f3 is a chain of empty functions
+   (f3 goes in the first round, then f2), gsub is an empty group below gtop, which is empty afterwards *)
+Example C10_idempotence_example :
+  let s := (fun x : string => list_ascii_of_string x) in
+  let m := mkM [(4%N, s "me"%string)]
+               [mkG (s "g"%string) None None (Some [s "me"%string]) (Some [s "f1"%string]);
+                mkG (s "gtop"%string) (Some [s "gsub"%string]) None None None; mkG (s "gsub"%string) None None None None]
+               [mkF (s "f1"%string) None None None None None None None;
+                mkF (s "f2"%string) (Some [s "f3"%string]) None None None None None None;
+                mkF (s "f3"%string) None None None None None None None]
+               [] [] [] [] [] [] [] [] [] in
+  (map g_nm (m_groups (cleanup m)), map f_nm (m_funcs (cleanup m))) = ([s "g"%string], [s "f1"%string]).
+Proof. vm_compute. reflexivity. Qed.
